@@ -54,6 +54,9 @@ def run(prog, R, tier="quick", only_rule=None):
     c06j(prog, R)
     c06l(prog, R)
     c06n(prog, R, L)
+    # a blob file is rewritten only if *no* other table - hidden by a parallel compaction or not - points into it
+    from rules.props import c08
+    c08.c08f(prog, R, rid="C06.o")
     # a reader at a published snapshot keeps finding its version: the version GC bound (shared with C20.d)
     from rules.props import c20
     c20.c20d(prog, R, rid="C06.k")
